@@ -27,3 +27,10 @@ package l4proxyprotocol
 //@ safety C01
 //@ assigns nothing
 //@ ensures[C01] c != nil ==> fresh(c) && c.Conn == cx
+
+// GetConn: the PROXY protocol connection recorded by the handler, if any, else the raw connection.
+//@ func GetConn(cx *layer4.Connection) (c net.Conn)
+//@ requires wfcx(cx)
+//@ requires[inv] isnil(ctxval(cx.Context, layer4.VarsCtxKey).(map[string]any)["l4.proxy_protocol.conn"]) || istype(ctxval(cx.Context, layer4.VarsCtxKey).(map[string]any)["l4.proxy_protocol.conn"], net.Conn)
+//@ safety C03
+//@ assigns[C03] nothing
